@@ -29,7 +29,7 @@ pub fn restrict_read(ids: [Index; NI], t: usize) {
             q.yielded(e.get().0 as u64);
             let other = e.get_other(h).map(|c| c.0);
             if !live {
-                assert!(other.is_none(), "C03: get_other through a dead handle returned a component");
+                assert!(other.is_none(), "C03/C13: get_other through a dead handle returned a component");
             }
             assert!(other == cur_val(&am, live, t), "C13: get_other differs from the storage's own lookup");
         }
@@ -206,7 +206,7 @@ pub fn restrict_other_mut(ids: [Index; NI], t: usize) {
             assert!(got_ro == want, "C13: get_other differs from the storage's own lookup");
             match e.get_other_mut(h) {
                 Some(c) => {
-                    assert!(live, "C03: get_other_mut through a dead handle returned a component");
+                    assert!(live, "C03/C13: get_other_mut through a dead handle returned a component");
                     assert!(Some(c.0) == want, "C13: get_other_mut differs from the storage's own lookup");
                     c.0 = y;
                     now[t] = Some(y);
